@@ -410,9 +410,14 @@ func RunIterFresh(w *World, r *Report, fns []*ssa.Function) {
 			for _, c := range cands {
 				anyReset = anyReset || c.reset
 			}
+			if !anyReset && cellResetIn(l) {
+				// the scratch slice lives in a cell (captured by a closure)
+				checkScalarSiblings(w, r, fn, l, stmt)
+			}
 			if !anyReset {
 				continue // no sibling shows that the loop's slices are per-iteration
 			}
+			checkScalarSiblings(w, r, fn, l, stmt)
 			for _, c := range cands {
 				key := r.MkKey("iterfresh", fnName(fn), "loop-local slice "+c.ph.Comment)
 				if c.stale.IsValid() {
@@ -855,4 +860,199 @@ func RunInputPosLen(w *World, r *Report, br *boundsRun, fns []*ssa.Function) {
 			}
 		}
 	}
+}
+
+// checkScalarSiblings: in a loop that resets its scratch slices at the start
+// of every iteration (so the loop's locals are per-iteration by the code's own
+// testimony), a pointer / interface / boolean / numeric variable that enters
+// the loop with its zero value, is assigned on some paths of the body only,
+// is read inside the body and is not used after the loop carries the value
+// of an earlier iteration into a later one.
+func checkScalarSiblings(w *World, r *Report, fn *ssa.Function, l *natLoop, stmt ast.Stmt) {
+	for _, in := range l.head.Instrs {
+		ph, ok := in.(*ssa.Phi)
+		if !ok {
+			break
+		}
+		switch ph.Type().Underlying().(type) {
+		case *types.Pointer, *types.Interface, *types.Basic:
+		default:
+			continue
+		}
+		// enters with the zero value, and some back edge hands the old value on
+		zeroEntry, carries := false, false
+		for i, e := range ph.Edges {
+			pred := l.head.Preds[i]
+			if !l.body[pred] {
+				if k, ok := e.(*ssa.Const); ok && (k.Value == nil || k.Value.String() == "0" || k.Value.String() == "false") {
+					zeroEntry = true
+				}
+				continue
+			}
+			if mayBe(e, ph, l, map[ssa.Value]bool{}) {
+				carries = true
+			}
+		}
+		if !zeroEntry || !carries {
+			continue
+		}
+		// assigned somewhere in the body at all (otherwise it is a constant)
+		assigned := false
+		for i, e := range ph.Edges {
+			if l.body[l.head.Preds[i]] && e != ssa.Value(ph) {
+				assigned = true
+			}
+		}
+		if !assigned {
+			continue
+		}
+		// reads: inside the loop statement only
+		web := map[ssa.Value]bool{ph: true}
+		for changed := true; changed; {
+			changed = false
+			for b := range l.body {
+				for _, ii := range b.Instrs {
+					q, ok := ii.(*ssa.Phi)
+					if !ok {
+						break
+					}
+					if web[q] {
+						continue
+					}
+					for _, e := range q.Edges {
+						if web[e] {
+							web[q] = true
+							changed = true
+						}
+					}
+				}
+			}
+		}
+		readInside, usedAfter := false, false
+		for v := range web {
+			if v.Referrers() == nil {
+				continue
+			}
+			for _, ref := range *v.Referrers() {
+				if _, isPhi := ref.(*ssa.Phi); isPhi {
+					if ref.Block() != nil && !l.body[ref.Block()] {
+						usedAfter = true
+					}
+					continue
+				}
+				if _, isDbg := ref.(*ssa.DebugRef); isDbg {
+					continue
+				}
+				if rp := ref.Pos(); rp.IsValid() && (rp < stmt.Pos() || rp > stmt.End()) {
+					usedAfter = true
+					continue
+				}
+				if ref.Block() != nil && !l.body[ref.Block()] {
+					usedAfter = true
+					continue
+				}
+				readInside = true
+			}
+		}
+		if !readInside || usedAfter {
+			continue
+		}
+		// counters and accumulators are meant to be carried: x = x op y
+		if isAccumulator(ph, l) {
+			continue
+		}
+		key := r.MkKey("iterfresh", fnName(fn), "loop-local variable "+ph.Comment)
+		r.Fail("iterfresh", key, w.Pos(ph.Pos()), "the variable "+ph.Comment+" is assigned on some paths of the loop body only, read inside the loop only and not reset at the start of an iteration, while the loop's scratch slices are: an iteration that does not assign it sees the value of an earlier iteration", nil)
+	}
+}
+
+// mayBe: v may be the value of ph itself (through phis inside the loop).
+func mayBe(v ssa.Value, ph *ssa.Phi, l *natLoop, seen map[ssa.Value]bool) bool {
+	if v == ssa.Value(ph) {
+		return true
+	}
+	if seen[v] {
+		return false
+	}
+	seen[v] = true
+	if q, ok := v.(*ssa.Phi); ok && l.body[q.Block()] {
+		for _, e := range q.Edges {
+			if mayBe(e, ph, l, seen) {
+				return true
+			}
+		}
+	}
+	return false
+}
+
+// isAccumulator: some value assigned to ph in the loop is computed from ph.
+func isAccumulator(ph *ssa.Phi, l *natLoop) bool {
+	var dep func(v ssa.Value, d int) bool
+	dep = func(v ssa.Value, d int) bool {
+		if d > 6 {
+			return false
+		}
+		switch x := v.(type) {
+		case *ssa.BinOp:
+			return x.X == ssa.Value(ph) || x.Y == ssa.Value(ph) || dep(x.X, d+1) || dep(x.Y, d+1)
+		case *ssa.Convert:
+			return dep(x.X, d+1)
+		case *ssa.Phi:
+			if x == ph {
+				return false
+			}
+			for _, e := range x.Edges {
+				if dep(e, d+1) {
+					return true
+				}
+			}
+		}
+		return false
+	}
+	for i, e := range ph.Edges {
+		if l.body[l.head.Preds[i]] && dep(e, 0) {
+			return true
+		}
+	}
+	return false
+}
+
+// cellResetIn: the loop body stores x[:0] back into a variable cell x that
+// was allocated outside the loop (a scratch slice shared with a closure).
+func cellResetIn(l *natLoop) bool {
+	for b := range l.body {
+		for _, in := range b.Instrs {
+			st, ok := in.(*ssa.Store)
+			if !ok {
+				continue
+			}
+			cell, ok := st.Addr.(*ssa.Alloc)
+			if !ok || l.body[cell.Block()] {
+				continue
+			}
+			sl, ok := st.Val.(*ssa.Slice)
+			if !ok || sl.Low != nil || sl.High == nil {
+				continue
+			}
+			if c, ok := bconstInt(sl.High); !ok || c != 0 {
+				continue
+			}
+			if ld, ok := sl.X.(*ssa.UnOp); ok && ld.X == ssa.Value(cell) {
+				return true
+			}
+		}
+	}
+	return false
+}
+
+// RunIterFreshControl: the scalar-sibling example is reported, its twin is not.
+func RunIterFreshControl(r *Report) {
+	RunControl(r, "iterfresh", "ctlIterScalar|", func(cw *World, rr *Report, fns []*ssa.Function) {
+		RunIterFresh(cw, rr, fns)
+		for _, o := range rr.Obls {
+			if o.Rule == "iterfresh" && o.Status == StViolation && containsFunc(o.Key, "ctlIterScalarOK") {
+				r.Fail("control", r.MkKey("control", "iterfresh", "safe twin "+o.Key), o.Pos, "rule iterfresh reports a safe example: "+o.Detail, nil)
+			}
+		}
+	})
 }
